@@ -112,10 +112,13 @@
    * close_when_flushed is never reset in this model (handle_write resets it
      when it turns it into will_close and closes: the channel is gone then).
 
-   THE CODE THIS MODEL WAS WRITTEN AGAINST (normalised by ast.unparse; the shape
-   audit of harness/chanexpect.py recomputes it from the source on every run and
-   compares it line by line with this block -- any edit of these methods breaks the
-   tie until the model is re-examined):
+   THE CODE THIS MODEL WAS WRITTEN AGAINST, in the cosmetic normal form of
+   harness/chanexpect.py (ast.unparse: comments, docstrings, layout gone;
+   annotations dropped; function-local names renamed v1, v2, ... in order of first
+   occurrence; everything that touches self.*, a lock, a call, a test, a constant
+   or the control flow kept exactly).  The shape audit recomputes it from the
+   source on every run and compares it line by line with this block -- any
+   non-cosmetic edit of these methods breaks the tie until the model is re-examined:
    SIGNATURE-BEGIN
    def received(self, data):
        if not data:
@@ -126,7 +129,7 @@
            while data:
                if self.request is None:
                    self.request = self.parser_class(self.adj)
-               n = self.request.received(data)
+               v1 = self.request.received(data)
                if self.request.expect_continue and self.request.headers_finished and (not self.requests) and (not self.sent_continue):
                    self.send_continue()
                if self.request.completed:
@@ -136,35 +139,35 @@
                        if len(self.requests) == 1:
                            self.server.add_task(self)
                    self.request = None
-               if n >= len(data):
+               if v1 >= len(data):
                    break
-               data = data[n:]
+               data = data[v1:]
        return True
    def send_continue(self, do_close=True):
        self.request.expect_continue = False
-       outbuf_payload = b'HTTP/1.1 100 Continue\r\n\r\n'
-       num_bytes = len(outbuf_payload)
+       v1 = b'HTTP/1.1 100 Continue\r\n\r\n'
+       v2 = len(v1)
        with self.outbuf_lock:
-           self.outbufs[-1].append(outbuf_payload)
-           self.current_outbuf_count += num_bytes
-           self.total_outbufs_len += num_bytes
+           self.outbufs[-1].append(v1)
+           self.current_outbuf_count += v2
+           self.total_outbufs_len += v2
            self.sent_continue = True
            self._flush_exception(self._flush_some, do_close=do_close)
    def service(self):
-       request = self.requests[0]
+       v1 = self.requests[0]
        ...
-       if task.close_on_finish:
+       if v2.close_on_finish:
            with self.requests_lock:
                self.close_when_flushed = True
-               for request in self.requests:
-                   request.close()
+               for v1 in self.requests:
+                   v1.close()
                self.requests = []
        else:
            if len(self.requests) > 1:
                self._flush_outbufs_below_high_watermark()
            if self.current_outbuf_count > 0:
                self.current_outbuf_count = self.adj.outbuf_high_watermark
-           request.close()
+           v1.close()
            with self.requests_lock:
                self.requests.pop(0)
                if self.connected and self.requests:
@@ -174,8 +177,8 @@
        if self.connected:
            self.server.pull_trigger()
        self.last_activity = time.time()
-   parser.py HTTPRequestParser / parse_header / if version == '1.1': expect = headers.get('EXPECT', '').lower()
-   parser.py HTTPRequestParser / parse_header / if version == '1.1': self.expect_continue = expect == '100-continue'
+   parser.py HTTPRequestParser / parse_header / if v1 == '1.1': v2 = v3.get('EXPECT', '').lower()
+   parser.py HTTPRequestParser / parse_header / if v1 == '1.1': self.expect_continue = v2 == '100-continue'
    SIGNATURE-END
 
    GHOST (never read by a guard): [rid] creation index of the parser object,
